@@ -146,6 +146,7 @@ Fixpoint expr_toks (e : expr) : toks :=
       [G Brace (ordering_arm_toks "Equal" (expr_toks eq) ++
                 ordering_arm_toks "Greater" (expr_toks gt) ++
                 ordering_arm_toks "Less" (expr_toks lt))]
+  | EQPath ty tr name => [P "<"] ++ ty ++ [I "as"] ++ rpath_toks tr ++ [P ">"; P "::"; I name]
   end.
 
 Definition block_toks (b : block) : toks := flat_map expr_toks b.
